@@ -458,6 +458,45 @@ fn lane_phase_tasks(fields: &[Field], lmax: usize, backend: Backend) -> Vec<Task
     tasks
 }
 
+/// All 65536 byte pairs at every adjacent position pair of a field (carries between neighbouring
+/// lanes, two cooperating bytes such as 0xFF followed by a control byte, UTF-8 pairs in a reason).
+pub fn add_pair_sweeps(p: &mut Plan, q: bool, backends: &[Backend], names: &[&str]) {
+    let fields: Vec<Field> = FIELDS.iter().filter(|f| names.is_empty() || names.contains(&f.name)).cloned().collect();
+    let lens: Vec<usize> = if q { vec![2, 9, 17] } else { vec![2, 5, 9, 17, 33, 41] };
+    for &b in backends {
+        let mut tasks: Vec<TaskFn> = Vec::new();
+        for f in &fields {
+            for &l in &lens {
+                let f = *f;
+                tasks.push(Box::new(move |ck: &mut Checker| {
+                    let lane = Lane { backend: b, ..Lane::new(f.entry, f.cfg, 2) };
+                    let mut buf = Vec::new();
+                    buf.extend_from_slice(f.pre);
+                    buf.extend(std::iter::repeat(f.fill).take(l));
+                    buf.extend_from_slice(f.post);
+                    let base = f.pre.len();
+                    for pos in 0..l - 1 {
+                        for x in 0..=255u8 {
+                            for y in 0..=255u8 {
+                                buf[base + pos] = x;
+                                buf[base + pos + 1] = y;
+                                one_shot(ck, &lane, &buf);
+                            }
+                            if ck.full() {
+                                return;
+                            }
+                        }
+                        buf[base + pos] = f.fill;
+                        buf[base + pos + 1] = f.fill;
+                    }
+                }));
+            }
+        }
+        p.phases.push(Phase { label: format!("S2b: all 65536 byte pairs at adjacent positions of {} fields, lengths {:?}", fields.len(), lens), backend: b, tasks });
+    }
+    p.bounds.push(format!("S2b pairs: every (x, y) in 256x256 at positions (i, i+1) of fields {:?}, run lengths {:?}, backends {:?}", fields.iter().map(|f| f.name).collect::<Vec<_>>(), lens, backends.iter().map(|b| b.name()).collect::<Vec<_>>()));
+}
+
 pub fn add_lane_phase(p: &mut Plan, q: bool, backends: &[Backend]) {
     let lmax = if q { 70 } else { 100 };
     for &b in backends {
